@@ -1,0 +1,10 @@
+//go:build verif
+
+// Contracts for the deductive verifier in /verif (gocv). Comment-only file.
+
+package tikvrpc
+
+// NewRequest wraps the given message unchanged.
+//@ func NewRequest
+//@   prop C14 C11 C04 C05 C16
+//@   ensures result != nil && fresh(result) && result.Type == typ && result.Req == pointer
